@@ -144,6 +144,14 @@ def _loop_shape(b):
                     return False, f'unexpected arithmetic {op} in the loop'
     if subs != 1 or gts != 1:
         return False, f'loop shape not recognised ({subs} decrements, {gts} > tests)'
+    # the loop goes on only while the byte is not '/': the test against 47 is part of the loop
+    slash = 0
+    for bi in blocks:
+        for st in b['blocks'][bi]['stmts']:
+            if st['k'] == 'assign' and st['rv']['k'] == 'binop' and st['rv']['op'] in ('Ne', 'Eq') and st['rv']['b']['k'] == 'const' and st['rv']['b'].get('val') == 47:
+                slash += 1
+    if slash != 1:
+        return False, f'the loop does not stop at a "/" ({slash} comparisons with b\'/\')'
     return True, ''
 
 
@@ -169,9 +177,15 @@ def pop_loop_ok(P):
     return ok, (why if ok else f'{cands[0]["name"].rsplit("::", 1)[-1]}: {why}')
 
 
+POP_LOOP_ISSUES = []
+
+
 def loop_facts(p, fn, bb, local, s, init, locs):
     if fn.endswith('::pop') or (POP_LOOP_FN[0] is not None and fn == POP_LOOP_FN[0]):
         st, e = p.heap['SELF'][1], p.heap['SELF'][2]
+        # the search starts at the LAST byte of the path and only moves down: the "/" it stops at is the last one
+        if isinstance(init, Aff) and not (init - (e - 1)) == Aff():
+            POP_LOOP_ISSUES.append(f'the backward search of pop starts at {init!r}, not at the last byte of the path (end - 1)')
         return [s - st, e - 1 - s]
     return []
 
